@@ -1,6 +1,167 @@
-import Tahoe.Mutable.Content
-/-! C09 placeholder while the model is being tied to the code. -/
+import Tahoe.Mutable.ContentLemmas
+import Tahoe.Generated.Mutpublish
+/-! C09 — mutable files read back what one writer wrote (property theorems; helper lemmas are in
+    `Tahoe/Mutable/ContentLemmas.lean`, the model in `Tahoe/Mutable/Content.lean`).
+
+    The model is the code with fixes/C09-update-stale-node-size.diff and
+    fixes/C09-sdmf-update-past-eof.diff applied.  `WF cfg v` says that the version was published by a
+    client with configuration `cfg` (segment size = `next_multiple(DEFAULT_MUTABLE_MAX_SEGMENT_SIZE | len, k)`);
+    it is established by `create` and preserved by every operation (`history_refines_bytes` carries it). -/
 namespace Tahoe.C09
 open Tahoe.Mutable.Content
+
+/-- **update = splice.**  An update of a non-empty file at `off ≤ size` is accepted and yields
+    `old[:off] ++ data ++ old[off+len:]` — an append when `off = size`, an extension when
+    `off + len > size` — in both formats, any segment size, any number of segments.
+    Precise guard (everything outside it is *refused* by the code, i.e. raises, see `update_refused`):
+    the file is non-empty; for MDMF `off ≤ size`, and not (`off = size` and `size` a multiple of the segment size). -/
+theorem update_is_splice (cfg : Cfg) (v : Version) (off : Nat) (data : Bytes)
+    (hk : 0 < cfg.k) (hm : 0 < cfg.maxSeg) (wf : WF cfg v)
+    (hpos : 0 < v.content.length) (hoff : off ≤ v.content.length)
+    (hb : v.fmt = .mdmf → ¬ (off = v.content.length ∧ off % v.segsize = 0)) :
+    ∃ v', update cfg v off data = .ok v'
+      ∧ v'.content = v.content.take off ++ data ++ v.content.drop (off + data.length)
+      ∧ v'.fmt = v.fmt ∧ WF cfg v' := by
+  obtain ⟨v', h1, h2, h3, h4⟩ := update_spec cfg v off data hk hm wf hpos (fun hf => ⟨hoff, hb hf⟩)
+  refine ⟨v', h1, ?_, h3, h4⟩
+  rw [h2, ← splice_eq_spec _ _ _ hoff]; rfl
+
+example : ∃ v, publishAll ⟨2, 4⟩ .mdmf [1, 2, 3, 4, 5, 6, 7, 8, 9, 10] = some v ∧ WF ⟨2, 4⟩ v
+    ∧ (update ⟨2, 4⟩ v 3 [100, 101, 102]).toOption.map (·.content) = some [1, 2, 3, 100, 101, 102, 7, 8, 9, 10]
+    ∧ (update ⟨2, 4⟩ v 10 [100]).toOption.map (·.content) = some [1, 2, 3, 4, 5, 6, 7, 8, 9, 10, 100]
+    ∧ (update ⟨2, 4⟩ v 7 [100, 101, 102, 103, 104, 105, 106]).toOption.map (·.content)
+        = some [1, 2, 3, 4, 5, 6, 7, 100, 101, 102, 103, 104, 105, 106] :=
+  ⟨_, rfl, rfl, by decide, by decide, by decide⟩
+
+/-- SDMF (with the zero-fill repair): a write that starts beyond the end puts the data at `off`,
+    keeps the old bytes and fills the gap with zeros. -/
+theorem update_past_eof_sdmf (cfg : Cfg) (v : Version) (off : Nat) (data : Bytes)
+    (hk : 0 < cfg.k) (hm : 0 < cfg.maxSeg) (wf : WF cfg v) (hf : v.fmt = .sdmf)
+    (hpos : 0 < v.content.length) (hoff : v.content.length < off) :
+    ∃ v', update cfg v off data = .ok v'
+      ∧ v'.content = v.content ++ List.replicate (off - v.content.length) 0 ++ data := by
+  obtain ⟨v', h1, h2, _, _⟩ := update_spec cfg v off data hk hm wf hpos (by intro h; rw [hf] at h; cases h)
+  refine ⟨v', h1, ?_⟩
+  rw [h2]
+  simp only [specStep]
+  rw [List.take_of_length_le (by omega), List.drop_of_length_le (by omega), List.append_nil]
+
+example : (update ⟨2, 8⟩ ⟨.sdmf, 4, [1, 2, 3]⟩ 5 [9, 9]).toOption.map (·.content) = some [1, 2, 3, 0, 0, 9, 9] := by
+  decide
+
+/-- The refusals of the code (exceptions; nothing is published): every update of an empty file, and for
+    MDMF a start beyond the end or exactly at an end that is a segment boundary. -/
+theorem update_refused (cfg : Cfg) (v : Version) (off : Nat) (data : Bytes) (wf : WF cfg v)
+    (h : v.content.length = 0 ∨
+         (v.fmt = .mdmf ∧ (v.content.length < off ∨ (off = v.content.length ∧ off % v.segsize = 0)))) :
+    ∃ e, update cfg v off data = .error e := by
+  cases hu : update cfg v off data with
+  | error e => exact ⟨e, rfl⟩
+  | ok v' =>
+    exfalso
+    have hseg : v.segsize ≠ 0 := by intro h0; simp [update, h0] at hu
+    cases hf : v.fmt with
+    | sdmf =>
+      rcases h with h0 | ⟨hm', _⟩
+      · apply hseg; rw [wf, hf, h0]; simp [pubSegsize, nextMultiple, divCeil]
+      · rw [hf] at hm'; cases hm'
+    | mdmf =>
+      have hm' : mdmfUpdate cfg v off data = .ok v' := by simpa [update, hseg, hf] using hu
+      obtain ⟨g1, g2, g3⟩ := mdmfUpdate_ok_guard cfg v v' off data hm'
+      rcases h with h0 | ⟨_, hgt | ⟨he, hmod⟩⟩
+      · omega
+      · omega
+      · -- off = size is a multiple of seg: start_segment = num_segments
+        have hs : 0 < v.segsize := Nat.pos_of_ne_zero hseg
+        have g := geom_numSegments v.content.length v.segsize hs
+        obtain ⟨_, s2, s3⟩ := div_bounds off v.segsize hs
+        obtain ⟨_, g'⟩ := g
+        rcases g' with ⟨_, h0⟩ | ⟨hn0, hl, ht0, hts⟩
+        · omega
+        · have := Nat.mul_le_mul_right v.segsize
+            (show off / v.segsize + 1 ≤ numSegments v.content.length v.segsize by omega)
+          have e : (numSegments v.content.length v.segsize - 1 + 1) * v.segsize
+              = (numSegments v.content.length v.segsize - 1) * v.segsize + v.segsize := Nat.succ_mul _ _
+          have e' : numSegments v.content.length v.segsize - 1 + 1 = numSegments v.content.length v.segsize := by omega
+          rw [e'] at e
+          rw [Nat.succ_mul] at this
+          omega
+
+example : update ⟨2, 4⟩ ⟨.mdmf, 4, [1, 2, 3, 4, 5, 6, 7, 8]⟩ 8 [9] = .error .index
+    ∧ update ⟨2, 4⟩ ⟨.mdmf, 4, [1, 2, 3]⟩ 5 [9] = .error .assertion
+    ∧ update ⟨2, 4⟩ ⟨.sdmf, 0, []⟩ 0 [9] = .error .zerodiv := ⟨rfl, rfl, rfl⟩
+
+/-- **TransformingUploadable.read is correct.**  Built by the updater from the old start segment (and,
+    where old bytes after the write are needed, the old end segment), and read with the publisher's
+    segment lengths (`seg`, or the tail size for the last segment of the new file) for the segments
+    `off/seg, off/seg+1, …`, it passes every `assert len(data) == segsize` and returns exactly the
+    segments of `old[:off] ++ data ++ old[off+len:]`. -/
+theorem transforming_read_correct (old data : Bytes) (seg off : Nat) (hseg : 0 < seg) (hoff : off ≤ old.length)
+    (endSeg : Bytes) (count : Nat)
+    (hcount : off / seg + count ≤ numSegments (max old.length (off + data.length)) seg)
+    (hend : ∀ j, off / seg ≤ j → j < off / seg + count →
+      off + data.length < j * seg + want (numSegments (max old.length (off + data.length)) seg) seg
+          (tailSize (max old.length (off + data.length)) seg) j →
+      endSeg = segmentOf old seg j) :
+    pushLoop TU.read (numSegments (max old.length (off + data.length)) seg) seg
+        (tailSize (max old.length (off + data.length)) seg) (off / seg) count
+        (TU.init data off seg (segmentOf old seg (off / seg)) endSeg)
+      = some ((List.range' (off / seg) count).map fun j =>
+          slice (splice old off data) (j * seg)
+            (j * seg + want (numSegments (max old.length (off + data.length)) seg) seg
+              (tailSize (max old.length (off + data.length)) seg) j)) :=
+  tu_pushLoop old data seg off hseg hoff endSeg count hcount hend
+
+example : pushLoop TU.read 3 4 2 0 2 (TU.init [100, 101, 102] 3 4 [1, 2, 3, 4] [5, 6, 7, 8])
+    = some [[1, 2, 3, 100], [101, 102, 7, 8]] := by decide
+
+/-- **read(offset, size) is the slice.**  `MutableFileVersion.read(consumer, offset, size)` of a valid
+    range returns `content[offset : offset+size]`, whatever the segment size (Retrieve's
+    `_start_segment`/`_last_segment` and `_set_segment` head/tail trimming). -/
+theorem read_range_slice (v : Version) (off size : Nat) (hseg : 0 < v.segsize) (hsize : 0 < size)
+    (hlen : off + size ≤ v.content.length) :
+    read v off (some size) = .ok ((v.content.drop off).take size) := by
+  rw [read_spec v off size hseg hsize hlen]
+  congr 1
+  simp only [slice]
+  rw [List.drop_take]
+  congr 1; omega
+
+/-- `read(consumer, offset)` (size = None) returns everything from `offset`; an empty range is empty. -/
+theorem read_to_end (v : Version) (off : Nat) (hseg : 0 < v.segsize) (hoff : off ≤ v.content.length) :
+    read v off none = .ok (v.content.drop off) := by
+  by_cases h : off = v.content.length
+  · subst h; simp [Mutable.Content.read]
+  · have := read_range_slice v off (v.content.length - off) hseg (by omega) (by omega)
+    simp only [Mutable.Content.read, hoff, if_true] at this ⊢
+    rw [this, List.take_of_length_le (by simp)]
+
+example : read ⟨.mdmf, 4, [1, 2, 3, 4, 5, 6, 7, 8, 9, 10]⟩ 3 (some 6) = .ok [4, 5, 6, 7, 8, 9]
+    ∧ read ⟨.mdmf, 4, [1, 2, 3, 4, 5, 6, 7, 8, 9, 10]⟩ 5 none = .ok [6, 7, 8, 9, 10] := ⟨rfl, rfl⟩
+
+/-- **Histories refine the byte-string fold.**  For every operation list (create / overwrite / modify
+    with any modifier / update, either format) started from a client-published state, the content
+    after operation `i` is the fold of the byte-string semantics `specStep` over the operations that
+    were accepted up to `i` (a refused operation changes nothing). -/
+theorem history_refines_bytes (cfg : Cfg) (hk : 0 < cfg.k) (hm : 0 < cfg.maxSeg) (ops : List Op)
+    (st : Option Version) (wf : ∀ v, st = some v → WF cfg v) :
+    (run cfg st ops).map (fun r => contentOf r.2)
+      = specRun (contentOf st) (((run cfg st ops).map (·.1)).zip ops) :=
+  run_refines cfg hk hm ops st wf
+
+example : (run ⟨2, 4⟩ none [.create .mdmf [1, 2, 3, 4, 5], .update 5 [6, 7, 8, 9], .update 2 [0, 0, 0],
+      .update 20 [1], .modify (fun old => some (old ++ [42])), .overwrite [7]]).map (fun r => (r.1, contentOf r.2))
+    = [(true, [1, 2, 3, 4, 5]), (true, [1, 2, 3, 4, 5, 6, 7, 8, 9]), (true, [1, 2, 0, 0, 0, 6, 7, 8, 9]),
+       (false, [1, 2, 0, 0, 0, 6, 7, 8, 9]), (true, [1, 2, 0, 0, 0, 6, 7, 8, 9, 42]), (true, [7])] := by decide
+
+/-- a whole-file publish (create / overwrite / changed modify) stores exactly the new bytes -/
+theorem publish_stores_data (cfg : Cfg) (fmt : Fmt) (data : Bytes) (hk : 0 < cfg.k) (hm : 0 < cfg.maxSeg) :
+    ∃ v, publishAll cfg fmt data = some v ∧ v.content = data ∧ v.fmt = fmt ∧ WF cfg v :=
+  ⟨_, publishAll_eq cfg fmt data hk hm, rfl, rfl, rfl⟩
+
+/-- the documented MDMF maximum segment size (128 KiB), pinned to the source constant -/
+theorem default_max_segment_size_is_128KiB :
+    Tahoe.Generated.Mutpublish.DEFAULT_MUTABLE_MAX_SEGMENT_SIZE = 128 * 1024
+      ∧ Tahoe.Generated.Mutpublish.KiB = 1024 := by decide
 
 end Tahoe.C09
